@@ -42,7 +42,10 @@ func NewFeeQuotes(minerName string) *FeeQuotes {
 // AddMinerWithDefault will add a new miner to the quotes map with default fees & immediate expiry.
 func (f *FeeQuotes) AddMinerWithDefault(minerName string) *FeeQuotes {
 	f.mu.Lock()
+	verifTrace("FeeQuotes.AddMinerWithDefault", "lock", "fqs.mu")
 	defer f.mu.Unlock()
+	defer verifTrace("FeeQuotes.AddMinerWithDefault", "unlock", "fqs.mu")
+	verifTrace("FeeQuotes.AddMinerWithDefault", "write", "quotes")
 	f.quotes[minerName] = NewFeeQuote()
 	return f
 }
@@ -51,7 +54,10 @@ func (f *FeeQuotes) AddMinerWithDefault(minerName string) *FeeQuotes {
 // If you just want to add default fees use the AddMinerWithDefault method.
 func (f *FeeQuotes) AddMiner(minerName string, quote *FeeQuote) *FeeQuotes {
 	f.mu.Lock()
+	verifTrace("FeeQuotes.AddMiner", "lock", "fqs.mu")
 	defer f.mu.Unlock()
+	defer verifTrace("FeeQuotes.AddMiner", "unlock", "fqs.mu")
+	verifTrace("FeeQuotes.AddMiner", "write", "quotes")
 	f.quotes[minerName] = quote
 	return f
 }
@@ -63,7 +69,10 @@ func (f *FeeQuotes) Quote(minerName string) (*FeeQuote, error) {
 		return nil, ErrFeeQuotesNotInit
 	}
 	f.mu.RLock()
+	verifTrace("FeeQuotes.Quote", "rlock", "fqs.mu")
 	defer f.mu.RUnlock()
+	defer verifTrace("FeeQuotes.Quote", "runlock", "fqs.mu")
+	verifTrace("FeeQuotes.Quote", "read", "quotes")
 	q, ok := f.quotes[minerName]
 	if !ok {
 		return nil, ErrMinerNoQuotes
@@ -79,7 +88,10 @@ func (f *FeeQuotes) Fee(minerName string, feeType FeeType) (*Fee, error) {
 		return nil, ErrFeeQuotesNotInit
 	}
 	f.mu.RLock()
+	verifTrace("FeeQuotes.Fee", "rlock", "fqs.mu")
 	defer f.mu.RUnlock()
+	defer verifTrace("FeeQuotes.Fee", "runlock", "fqs.mu")
+	verifTrace("FeeQuotes.Fee", "read", "quotes")
 	m := f.quotes[minerName]
 	if m == nil {
 		return nil, ErrMinerNoQuotes
@@ -91,7 +103,10 @@ func (f *FeeQuotes) Fee(minerName string, feeType FeeType) (*Fee, error) {
 // This will update the miner feeType with the provided fee. Useful after receiving new quotes from mapi.
 func (f *FeeQuotes) UpdateMinerFees(minerName string, feeType FeeType, fee *Fee) (*FeeQuote, error) {
 	f.mu.Lock()
+	verifTrace("FeeQuotes.UpdateMinerFees", "lock", "fqs.mu")
 	defer f.mu.Unlock()
+	defer verifTrace("FeeQuotes.UpdateMinerFees", "unlock", "fqs.mu")
+	verifTrace("FeeQuotes.UpdateMinerFees", "read", "quotes")
 	if minerName == "" || feeType == "" || fee == nil {
 		return nil, ErrEmptyValues
 	}
@@ -183,7 +198,10 @@ func (f *FeeQuote) Fee(t FeeType) (*Fee, error) {
 		return nil, ErrFeeQuoteNotInit
 	}
 	f.mu.RLock()
+	verifTrace("FeeQuote.Fee", "rlock", "fq.mu")
 	defer f.mu.RUnlock()
+	defer verifTrace("FeeQuote.Fee", "runlock", "fq.mu")
+	verifTrace("FeeQuote.Fee", "read", "fees")
 	fee, ok := f.fees[t]
 	if fee == nil || !ok {
 		return nil, ErrFeeTypeNotFound
@@ -195,7 +213,10 @@ func (f *FeeQuote) Fee(t FeeType) (*Fee, error) {
 // quote if it already exists.
 func (f *FeeQuote) AddQuote(ft FeeType, fee *Fee) *FeeQuote {
 	f.mu.Lock()
+	verifTrace("FeeQuote.AddQuote", "lock", "fq.mu")
 	defer f.mu.Unlock()
+	defer verifTrace("FeeQuote.AddQuote", "unlock", "fq.mu")
+	verifTrace("FeeQuote.AddQuote", "write", "fees")
 	f.fees[ft] = fee
 	return f
 }
@@ -203,7 +224,10 @@ func (f *FeeQuote) AddQuote(ft FeeType, fee *Fee) *FeeQuote {
 // Expiry will return the expiry timestamp for the `bt.FeeQuote` in a threadsafe manner.
 func (f *FeeQuote) Expiry() time.Time {
 	f.mu.RLock()
+	verifTrace("FeeQuote.Expiry", "rlock", "fq.mu")
 	defer f.mu.RUnlock()
+	defer verifTrace("FeeQuote.Expiry", "runlock", "fq.mu")
+	verifTrace("FeeQuote.Expiry", "read", "expiryTime")
 	return f.expiryTime
 }
 
@@ -212,7 +236,10 @@ func (f *FeeQuote) Expiry() time.Time {
 // should return an expiration time.
 func (f *FeeQuote) UpdateExpiry(exp time.Time) {
 	f.mu.Lock()
+	verifTrace("FeeQuote.UpdateExpiry", "lock", "fq.mu")
 	defer f.mu.Unlock()
+	defer verifTrace("FeeQuote.UpdateExpiry", "unlock", "fq.mu")
+	verifTrace("FeeQuote.UpdateExpiry", "write", "expiryTime")
 	f.expiryTime = exp
 }
 
@@ -220,7 +247,10 @@ func (f *FeeQuote) UpdateExpiry(exp time.Time) {
 // means we need to fetch fresh quotes from a MAPI server.
 func (f *FeeQuote) Expired() bool {
 	f.mu.Lock()
+	verifTrace("FeeQuote.Expired", "lock", "fq.mu")
 	defer f.mu.Unlock()
+	defer verifTrace("FeeQuote.Expired", "unlock", "fq.mu")
+	verifTrace("FeeQuote.Expired", "read", "expiryTime")
 	return f.expiryTime.Before(time.Now().UTC())
 }
 
@@ -250,7 +280,10 @@ func (f *FeeQuote) Expired() bool {
 //  }
 func (f *FeeQuote) MarshalJSON() ([]byte, error) {
 	f.mu.RLock()
+	verifTrace("FeeQuote.MarshalJSON", "rlock", "fq.mu")
 	defer f.mu.RUnlock()
+	defer verifTrace("FeeQuote.MarshalJSON", "runlock", "fq.mu")
+	verifTrace("FeeQuote.MarshalJSON", "read", "fees")
 	return json.Marshal(f.fees)
 }
 
@@ -269,7 +302,10 @@ func (f *FeeQuote) UnmarshalJSON(body []byte) error {
 		v.FeeType = k
 	}
 	f.mu.Lock()
+	verifTrace("FeeQuote.UnmarshalJSON", "lock", "fq.mu")
 	defer f.mu.Unlock()
+	defer verifTrace("FeeQuote.UnmarshalJSON", "unlock", "fq.mu")
+	verifTrace("FeeQuote.UnmarshalJSON", "write", "fees")
 	f.fees = fees
 	return nil
 }
